@@ -1446,6 +1446,19 @@ class Interp:
         raise Undecided('method %s of %r (line %s)' % (name, obj, getattr(node, 'lineno', '?')))
 
     # ---------------------------------------------------------------- constructors
+    def _wrapper_classes(self):
+        w = getattr(self, '_wrapper_cls_names', None)
+        if w is None:
+            try:
+                from . import roles
+                r = roles.roles(self.repo)
+                w = {r.get('commented_cls'), r.get('trailing_cls')} - {None}
+            except Exception:
+                w = set()
+            w |= {'_CommentedValue', '_TrailingCommentedValue'}
+            self._wrapper_cls_names = w
+        return w
+
     def find_method(self, ci, name):
         """method ``name`` of class ``ci`` or of its base classes inside the package (depth-first, left to right)"""
         seen = set()
@@ -1478,7 +1491,7 @@ class Interp:
         concrete = getattr(self, 'concrete_classes', None) or ()
         if name == 'CommentAnnotation' and name not in concrete:
             return AnnotV(('comment', _prov(args[0])))
-        if name in ('_CommentedValue', '_TrailingCommentedValue') and name not in concrete:
+        if name in self._wrapper_classes() and name not in concrete:
             return Sym('%s(%s)' % (name, ','.join(_prov(a) for a in args)))
         if name == 'PrettyContext' and not getattr(self, 'concrete_context', False):
             return CtxV('ctx', 0, kwargs.get('multiline_strategy'), {k: v for k, v in kwargs.items()})
